@@ -294,7 +294,8 @@ class EditRun:
                         flags.add('code_cross_category')
             src_lines = self.root.src.split('\n')
             for i, ln in enumerate(src_lines):
-                if ln.rstrip().endswith('\\') and '#' not in ln and (i + 1 >= len(src_lines) or not src_lines[i + 1].strip()):
+                nxt = src_lines[i + 1].strip() if i + 1 < len(src_lines) else ''
+                if ln.rstrip().endswith('\\') and '#' not in ln and (not nxt or nxt.startswith('#') or nxt == '\\' or ln.strip() == '\\'):
                     flags.add('pre_source_has_dangling_line_continuation')
                     break
             code = op.get('code') or {}
